@@ -1366,6 +1366,46 @@ def _trig(name):
 m_cos, m_sin = _trig('cos'), _trig('sin')
 
 
+class PiVal(object):
+    """math.pi / numpy.pi: resolved by the engine to one real constant per path, 3.1415926 < pi < 3.1415927."""
+
+
+def pi_term(eng):
+    t = z3.Real('pi!const')
+    if not eng._fresh_path.get('pi!assumed'):
+        eng._fresh_path['pi!assumed'] = 1
+        eng.assume(z3.And(t > z3.RealVal('3.1415926'), t < z3.RealVal('3.1415927')))
+    return t
+
+
+@B('asin')
+def m_asin(eng, x):
+    if is_z3(x):
+        x = concretize(z3.simplify(x))
+    if isinstance(x, (int, Fraction)):
+        if x == 0: return Fraction(0)
+        if x == 1: return concretize(pi_term(eng) / 2)
+        if x == -1: return concretize(-pi_term(eng) / 2)
+        if x < -1 or x > 1: raise PyExc('ValueError', 'math domain error')
+    eng.assumptions_used.add('asin of a value other than 0, 1, -1 is an uninterpreted real in [-pi/2, pi/2]')
+    r = z3.Real(eng.fresh('asin'))
+    pi = pi_term(eng)
+    eng.assume(z3.And(r >= -pi / 2, r <= pi / 2))
+    return r
+
+
+@B('degrees')
+def m_degrees(eng, x):
+    if isinstance(x, (int, Fraction)) and x == 0:
+        return Fraction(0)
+    return concretize(to_real(x) * 180 / pi_term(eng))
+
+
+@B('np.identity')
+def np_identity(eng, n, dtype=None):
+    return NVec([NVec([Fraction(1) if i == j else Fraction(0) for j in range(n)]) for i in range(n)])
+
+
 @B('radians')
 def m_radians(eng, x):
     if isinstance(x, (int, Fraction)) and x == 0:
@@ -1602,7 +1642,7 @@ def _fs_exists(eng, p):
 _np = {
     'array': np_array, 'zeros': np_zeros, 'ones': np_ones, 'dot': np_dot, 'argmax': np_argmax, 'argmin': np_argmin, 'searchsorted': np_searchsorted, 'sqrt': m_sqrt, 'sum': np_sum, 'any': np_any, 'cumsum': np_cumsum, 'nanargmin': np_nanargmin, 'argsort': np_argsort, 'nanargmax': np_nanargmax,
     'nan': NAN, 'inf': V.Inf(1), 'float64': b_float, 'abs': b_abs, 'ceil': m_ceil, 'floor': m_floor,
-    'pi': None,
+    'pi': PiVal(), 'identity': np_identity,
     'int8': _DType('int8', True), 'int16': _DType('int16', True), 'int32': _DType('int32', True), 'int64': _DType('int64', True),
     'float32': _DType('float32', False),
 }
@@ -1616,7 +1656,7 @@ MODULES = {
         'ascii_letters': _string.ascii_letters, 'digits': _string.digits,
         'punctuation': _string.punctuation, 'whitespace': _string.whitespace,
     },
-    'math': {'sqrt': m_sqrt, 'ceil': m_ceil, 'floor': m_floor, 'cos': m_cos, 'sin': m_sin, 'radians': m_radians,
+    'math': {'sqrt': m_sqrt, 'ceil': m_ceil, 'floor': m_floor, 'cos': m_cos, 'sin': m_sin, 'radians': m_radians, 'asin': m_asin, 'degrees': m_degrees, 'pi': PiVal(),
              'exp': m_exp, 'log': m_log,
              },
     'numpy': dict(_np, np=_np_mod, linalg=_np_linalg),
